@@ -175,11 +175,57 @@ def _writers(ctx, pid, modes, limit, real_limit=0):
         notfollowed += 0 if rec["followed"] else 1
     ctx.coverage_extra.update({"scenarios_emitted": len(scns), "schedules_not_followed_by_code": notfollowed})
     samples = [{"jobs": scns[0]["jobs"], "sched": scns[0]["sched"], "expected_chain": scns[0]["chain"]}]
-    return finish(ctx, tally, samples=samples, traces=len(cls),
+    extra = 0
+    if pid == "C03":
+        extra = _autoskip(ctx, tally)
+    return finish(ctx, tally, samples=samples, traces=len(cls) + extra,
                   assumptions=["writers run on the harness' in-memory Git-format store shared by all writers; gates are the "
                                "reference reads/writes seen through gitstore.Storer plus the point between tip read and "
                                "compare-and-set inside Commit",
                                "one schedule per distinct terminal state of the model is replayed (seeded sample of %d)" % limit])
+
+
+AUTOSKIP_DEVS = {"AutoSkipIgnoresReference"}
+
+
+def _autoskip(ctx, tally):
+    """The 'automatic skips' recording operation of C03: SkipAllInvalidReferenceEntriesForRef on every log up to the bound."""
+    known, asbuilt = devsets("C03")
+    asbuilt = (asbuilt & AUTOSKIP_DEVS) | (known & AUTOSKIP_DEVS)
+    q = ctx.quick()
+    consts = {"MaxLen": 3 if q else 4, "Dev": set()}
+    mc = model_check(ctx, "MC_AutoSkip", dict(constants=consts, invariants=["Guarantees"], constraints=["Emit"]), workers=8, timeout=3600)
+    r = run_tlc(ctx, "MC_AutoSkip", dict(constants=dict(consts, MaxLen=3, Dev=AUTOSKIP_DEVS), invariants=["Harmless"]), workers=4, timeout=1800)
+    if r.error or not r.violated:
+        raise Infra("the automatic-skip deviation was expected to be visible in the model (vacuity guard): %s" % (r.error or "no violation"))
+    scns, seen = [], set()
+    for x in mc.records:
+        k = json.dumps(x, sort_keys=True)
+        if x.get("t") == "SCN" and k not in seen:
+            seen.add(k)
+            scns.append(x)
+    if not scns:
+        raise Infra("TLC emitted no automatic-skip scenarios")
+    d = ctx.sub("autoskip")
+    scn_path = os.path.join(d, "scn.ndjson")
+    write_ndjson(scn_path, scns)
+    trace = os.path.join(d, "trace.ndjson")
+    run_vh(ctx, ["autoskip", "-scn", scn_path, "-out", trace, "-seed", ctx.seed, "-n", 3000 if q else 40000])
+    cls = validate_trace(ctx, "Trace_AutoSkip", trace, {"Known": known & AUTOSKIP_DEVS, "AsBuilt": asbuilt})
+    lines = None
+    for rec in cls:
+        x = rec["r"]
+        if x["cls"] == "infra":
+            raise Infra("automatic-skip scenario %d could not run: %s" % (rec["id"], x.get("why")))
+        item = None
+        if x["cls"] != "conform":
+            if lines is None:
+                lines = {y["id"]: y for y in read_ndjson(trace)}
+            ln = lines[rec["id"]]
+            item = {"operation": "automatic skip", "why": x.get("why"), "log": ln["log"], "ref": ln["ref"], "appended": ln["appended"], "res": ln["res"]}
+        tally.add(x["cls"], item, dev=x.get("dev"), nontrivial_key=("autoskip", rec["id"]))
+    ctx.coverage_extra["autoskip_scenarios"] = len(cls)
+    return len(cls)
 
 
 def c03(ctx):
